@@ -70,6 +70,8 @@ class Evaluator:
         if p is not None and k in ("Ref", "Member"):
             key = path_str(p)
             if key == self.value_key:
+                if key in st.locals:
+                    return st.locals[key]          # the parameter was shifted / reassigned on this path
                 if st.lo == st.hi:
                     return C(st.lo)
                 return ("sym", "value")
@@ -325,6 +327,12 @@ class Evaluator:
             st.locals[key] = r
             return
         cur = st.locals.get(key)
+        if cur is None and key == self.value_key:
+            cur = C(st.lo) if st.lo == st.hi else ("sym", "value")
+        if cur is not None and not is_c(cur) and is_c(r) and op in (">>=",) and (lhs.get("t") or "").replace("const ", "") in ("unsigned long", "unsigned long long"):
+            # `value >>= 8`: the symbolic argument shifted right (64-bit unsigned: no wrap); the byte forms of trunc8 add the shifts up
+            st.locals[key] = ("bin", ">>", cur, r)
+            return
         if cur is None or not is_c(cur) or not is_c(r):
             raise Unknown("compound assignment on a value that is not decided")
         fake = {"k": "Bin", "op": op[:-1], "t": (lhs.get("t") or "").replace("const ", ""),
